@@ -162,6 +162,19 @@ def search(ctx, n):
             obs["fock_probabilities"] = np.asarray(a.fock_probabilities)
             obs["mean/sqrt(hbar)"] = a.xxpp_mean_vector / np.sqrt(hbar)
             obs["cov/hbar"] = a.xxpp_covariance_matrix / hbar
+            obs["correlation/hbar"] = a.xxpp_correlation_matrix / hbar
+            obs["wigner(scaled point)"] = None
+            # derived representations at THIS hbar: correlation = <Y_i Y_j + Y_j Y_i> = covariance + 2 mu mu^T in both orders,
+            # the representation tuples are (mean, correlation)
+            for order in ("xxpp", "xpxp"):
+                mu = np.asarray(getattr(a, order + "_mean_vector")); cv = np.asarray(getattr(a, order + "_covariance_matrix"))
+                corr = np.asarray(getattr(a, order + "_correlation_matrix"))
+                if not close(corr, cv + 2 * np.outer(mu, mu), 1e-9):
+                    fails.append((f"correlation:{order}", f"{order}_correlation_matrix is not covariance + 2 mean mean^T at hbar={hbar} (max deviation {np.abs(corr - cv - 2 * np.outer(mu, mu)).max():.3g})", dict(desc, hbar=hbar)))
+                rep = getattr(a, order + "_representation")
+                if not (close(rep[0], mu) and close(rep[1], corr)):
+                    fails.append((f"representation:{order}", f"{order}_representation is not (mean, correlation) at hbar={hbar}", dict(desc, hbar=hbar)))
+            del obs["wigner(scaled point)"]
             if ref is None:
                 ref = obs; ref["_hbar"] = hbar
                 continue
